@@ -109,7 +109,8 @@ EXPLORE = {
            "InstallError and are skipped, stated) and the log, user-defined, NSP and symbolic semirings must agree.",
     "C06": "Metamorphic contract: each semantics-neutral option, sampled combinations, log space and the evidence "
            "spellings must give the reference answer.",
-    "C07": "Metamorphic contract: seeded permutations of statements, clauses and body literals must give the reference answer.",
+    "C07": "Metamorphic contract: seeded permutations of statements, clauses and body literals must give the reference answer "
+           "(probabilities and, strictly, the set of reported instances).",
     "C08": "Metamorphic contract: single-query groundings, one shared target grounded query by query in random order and "
            "a reused prepared database must agree.",
 }
@@ -119,14 +120,18 @@ EXPLORE.update({
            "model extending the assignment and it carries the node values; constraints, weights and counts are carried over.",
     "C10": "Validation of every compiled circuit: decomposability and smoothness node by node, determinism and model "
            "equivalence with the CNF by exhaustive enumeration (<= 14 variables), labels and weights carried over; the "
-           "compiler is the external dsharp binary, so only per-instance validation is possible.",
+           "compiler is the external dsharp binary, so only per-instance validation is possible. Second stand-in at the "
+           "interface: ground programs built through LogicDAG (Python numbers and Constants as weights, 0.0/1.0 included, "
+           "contradicting TrueConstraints, force_atoms) -> CNF -> d-DNNF, evaluated and compared with the weighted model "
+           "count of the CNF by enumeration (covers empty, single-literal and inconsistent circuits).",
     "C25": "Metamorphic contract: the ProbLog text exported by to_prolog (with and without cycle breaking) re-evaluates to the "
            "same probabilities; the DIMACS text has exactly the clauses and counts of the internal CNF. to_prolog has four "
            "listed known failure modes; the DIMACS part holds.",
     "C26": "Metamorphic contract: subquery/2 and subquery/3 called from a deterministic wrapper bind the probability that "
            "top-level (conditional) inference reports.",
-    "C29": "Metamorphic contract: parent.extend() plus added clauses answers like preparing the union from scratch, and the "
-           "parent database answers as before the extension.",
+    "C29": "Metamorphic contract: parent.extend() (one extension or a chain of up to three) plus added clauses answers like "
+           "preparing the union from scratch, also half-way through the additions (query, add, query again); the parent "
+           "database answers as before the extension; the clauses enumerated by iterating the extension evaluate like the union.",
 })
 EXPLORE.update({
     "C11": "Run-time contract on the real LogicFormula builder: after every call of seeded call sequences (add_atom, add_and, "
@@ -139,12 +144,15 @@ EXPLORE.update({
            "the prepared database: exactly the non-clashing clauses, in program order, index unchanged (the contract of "
            "DESIGN.md A.3, evaluated on seeded fact lists and argument patterns; its planned proof was not built).",
     "C14": "Run-time contract on =/2, \\=/2 and clause-head matching for all pairs of a core term set plus seeded random terms "
-           "against a reference Robinson unifier with occurs check (answers compared up to variable renaming). The planned "
-           "proof of the unify_value wrappers was not built.",
+           "against a reference Robinson unifier with occurs check (answers compared up to variable renaming), plus flat k/3, k/4 "
+           "terms with repeated variables and pairs whose only obstacle is the occurs check (rejection sampling). Deductive "
+           "part: _builtin_eq/_builtin_neq are complementary, over an assumed contract of unify_value.",
     "C18": "Run-time contract, exhaustive over all pairs and triples of a fixed universe of terms built with the public "
            "constructors and the parser: reflexivity, symmetry, transitivity, equal => same hash, ground equal <=> unifiable; "
-           "four listed known findings (string-based Constant equality, quoted atoms, \\+ vs not under unification). The planned "
-           "proof for Term-vs-Term was not built.",
+           "four listed known findings (string-based Constant equality, quoted atoms, \\+ vs not under unification). Second "
+           "stand-in: equality and hash are independent of the history of a term object (caches filled through containers "
+           "and accessors in random order on one of two separately built copies). The planned proof for Term-vs-Term was "
+           "not built.",
 })
 EXPLORE.update({
     "C21": "Run-time contract on dtproblog(search=exhaustive|local) and on the map task for seeded decision-theoretic "
